@@ -385,9 +385,9 @@ PROPS['C22'] = {
     'oracles': ['C22'],
     'suites': {
         'quick': [{'suite': 'timer', 'args': ['--props', 'C22', '--n', '400']}, {'suite': 'timer', 'args': ['--props', 'C22', '--n', '300', '--interleave']},
-                  {'suite': 'timer', 'args': ['--props', 'C22', '--real', '--n', '1'], 'timeout': 120}],
+                  {'suite': 'timer', 'args': ['--props', 'C22', '--real', '--n', '1', '--case-timeout-ms', '90000'], 'timeout': 180}],
         'thorough': [{'suite': 'timer', 'args': ['--props', 'C22', '--n', '8000']} for _ in range(6)] + [{'suite': 'timer', 'args': ['--props', 'C22', '--n', '8000', '--interleave']} for _ in range(4)]
-                    + [{'suite': 'timer', 'args': ['--props', 'C22', '--real', '--n', '6'], 'timeout': 300}],
+                    + [{'suite': 'timer', 'args': ['--props', 'C22', '--real', '--n', '6', '--case-timeout-ms', '200000'], 'timeout': 400}],
     },
     'rule': T_RULE, 'design_ref': '5.22',
     'assumptions': ["the theorems cover one request after the query has been built (same answer, successor node, counter and flag whatever the history); the lift to whole runs "
@@ -404,9 +404,9 @@ PROPS['C23'] = {
     'oracles': ['C23'],
     'suites': {
         'quick': [{'suite': 'timer', 'args': ['--props', 'C23', '--n', '400']}, {'suite': 'timer', 'args': ['--props', 'C23', '--n', '25', '--all-ticks']},
-                  {'suite': 'timer', 'args': ['--props', 'C23', '--real', '--n', '2'], 'timeout': 120}],
+                  {'suite': 'timer', 'args': ['--props', 'C23', '--real', '--n', '2', '--case-timeout-ms', '90000'], 'timeout': 180}],
         'thorough': [{'suite': 'timer', 'args': ['--props', 'C23', '--n', '8000']} for _ in range(4)] + [{'suite': 'timer', 'args': ['--props', 'C23', '--n', '500', '--all-ticks']} for _ in range(6)]
-                    + [{'suite': 'timer', 'args': ['--props', 'C23', '--real', '--n', '40'], 'timeout': 600}],
+                    + [{'suite': 'timer', 'args': ['--props', 'C23', '--real', '--n', '40', '--case-timeout-ms', '500000'], 'timeout': 900}],
     },
     'exhaustive_in': {'quick': False, 'thorough': False},
     'rule': T_RULE + " The `--real` run uses the real 1 s timer thread without the hook: 200 fast histories must never show the timeout message; searches of 12^7 "
